@@ -27,7 +27,10 @@ def sign_scalar(scalar: bytes, msg: bytes) -> bytes:
     return R + ((r + k * (E.sc(scalar) % E.L)) % E.L).to_bytes(32, 'little')
 
 
-def one(F, T, k, seeds, sf, preimage, wrong, timeout, tw, tw_wrong, hash_size=20, flags='00'):
+SLACK = 60        # the default ts_threshold
+
+
+def one(F, T, k, seeds, sf, preimage, wrong, timeout, tw, tw_wrong, hash_size=20, flags='00', ahead=SLACK):
     recv, refund, other = seeds
     pk_r, pk_f = E.public_key(recv), E.public_key(refund)
     old_tt, old_ft = T.time, F.time
@@ -48,8 +51,8 @@ def one(F, T, k, seeds, sf, preimage, wrong, timeout, tw, tw_wrong, hash_size=20
         else:
             lock = T.make_ptlc_lock(pk_r, pk_f, tweak_point=E.base_mult_noclamp(tw), timeout=timeout, sigflags=flags)
         deadline = CREATE + timeout
-        t = {'before': deadline - 1, 'at': deadline, 'after': deadline + 1, 'future': deadline + 10 ** 6}[k['tm']]
-        now = CREATE if k['tm'] == 'future' else t
+        t = {'before': deadline - 1, 'at': deadline, 'after': deadline + 1, 'future': deadline + 1, 'slackm1': deadline}[k['tm']]
+        now = t - ahead if k['tm'] == 'future' else t - (SLACK - 1) if k['tm'] == 'slackm1' else t
         pre = preimage if k['pre'] == 'right' else wrong
         s = k['signer']
         seed = {1: recv, 2: refund, 3: other}.get(s)
@@ -108,11 +111,11 @@ def record_random(args):
             wrong = pre + b'\x01'
         k = {'lock': r.choice(['htlc_sha', 'htlc_shake', 'htlc2_sha', 'htlc2_shake', 'ptlc', 'ptlc_tweak']),
              'wit': r.choice(['htlc', 'htlc2', 'ptlc', 'ptlc_refund']), 'signer': r.choice([1, 1, 2, 2, 3, 11, 12]),
-             'pre': r.choice(['right', 'wrong']), 'tm': r.choice(['before', 'at', 'after', 'future'])}
+             'pre': r.choice(['right', 'wrong']), 'tm': r.choice(['before', 'at', 'after', 'future', 'slackm1'])}
         flags = r.choice(['00', '00', '01'])
         try:
             got = one(F, T, k, seeds, sf, pre, wrong, r.choice([1, 60, 86400, 10 ** 7]), E.clamp(r.randbytes(32)), E.clamp(r.randbytes(32)),
-                      hash_size=r.choice([16, 20, 32]), flags=flags)
+                      hash_size=r.choice([16, 20, 32]), flags=flags, ahead=r.choice([SLACK, SLACK, SLACK + 1, 10 ** 6]))
         except BaseException as e:
             if isinstance(e, (KeyboardInterrupt, SystemExit)):
                 raise
@@ -125,7 +128,8 @@ def main(tier: str, seed: int) -> int:
     rep = Report('C15', tier, seed)
     rep.rule = ('MC (Htlc.tla: the six lock scripts executed on symbolic items vs ClaimOK / RefundOK): 6 locks x 4 witness builders '
                 '(all cross-pairings) x signer in {receiver, refund, another key, receiver + right tweak, receiver + wrong tweak} x '
-                '{right, wrong preimage} x timestamp in {deadline-1, deadline, deadline+1, far future beyond the clock slack} = 960 '
+                '{right, wrong preimage} x timestamp in {deadline-1, deadline, deadline+1, past the deadline and ahead of the pinned verifier clock by exactly the slack threshold '
+                '(rejected), at the deadline and ahead by one second less (accepted)} = 1,200 '
                 'cases; laws AcceptIffClaimOrRefund, WrongPreimageNeverClaims, NoRefundBeforeTimeout, OtherKeyRejected; each case is '
                 'built with the real builders under pinned clocks (tools.time at creation, functions.time at the check) and run '
                 'through run_auth_scripts. traces: random seeds, preimages of 1..64 bytes, digest sizes 16/20/32, timeouts from 1 s to '
@@ -134,7 +138,7 @@ def main(tier: str, seed: int) -> int:
     quick = tier == 'quick'
     scncheck.mc(rep, 'Htlc', 'mc', INV, run_mc, workers=4)
     import multiprocessing as mp
-    n = 1500 if quick else 40000
+    n = 10000 if quick else 60000
     with mp.get_context('fork').Pool(14) as pool:
         cases = [c for ch in pool.map(record_random, [(seed * 59 + i, n // 28) for i in range(28)]) for c in ch]
     scncheck.judge(rep, 'Htlc', [], cases, 'random HTLC / PTLC scenarios')
